@@ -3,7 +3,8 @@
    for all values of the components (and of the direction vectors), given r2 * r2 = 2. *)
 From Coq Require Import QArith Qreals Reals Ring_polynom List Bool Lia Lra.
 From EFLib Require Import PolyQ.
-From EFP Require Import C18_InvDefs Gen_HyperInv.
+From EFModel Require Import C18_InvDefs.
+From EFP Require Import Gen_HyperInv.
 Import ListNotations.
 
 Lemma all_invs_checked : forallb chk_inv all_invs = true.
